@@ -308,6 +308,11 @@ theorem parseTagsLoop_shift (text : Bytes) (base : Pos) (parts : List Bytes) (s 
       ((parseSubdirectives (listEnv num cls) st).1, shiftSt d (parseSubdirectives (listEnv num cls) st).2) := by
   unfold parseSubdirectives; grind
 
+@[simp, grind =] theorem directiveCommodity_shift (t : Token) :
+    directiveCommodity (d.tok t) = d.commodity (directiveCommodity t) := by
+  unfold directiveCommodity
+  by_cases h : t.ty = .commodity <;> simp [h, Shift.commodity, Shift.rng, toRange, Shift.tok]
+
 @[simp, grind =] theorem commodityInline_shift (st : PState (List Token)) :
     commodityInline (listEnv num cls) (shiftSt d st) = ((fun r => (d.commodity r.1, r.2)) (commodityInline (listEnv num cls) st).1, shiftSt d (commodityInline (listEnv num cls) st).2) := by
   fun_cases commodityInline (listEnv num cls) st <;> (unfold commodityInline; (try simp +zetaDelta only [] at *) <;> (first | grind [Shift.date, Shift.rng, Shift.commodity, Shift.amount, Shift.cost, Shift.assertion, Shift.posting, Shift.tx, Shift.account, Shift.incl, Shift.dir, Shift.comment, Shift.item, Shift.dirResult, toRange, emptyCommodity, DirResult.ofDir] | (simp_all [Shift.date, Shift.rng, Shift.commodity, Shift.amount, Shift.cost, Shift.assertion, Shift.posting, Shift.tx, Shift.account, Shift.incl, Shift.dir, Shift.comment, Shift.item, Shift.dirResult, toRange, emptyCommodity, DirResult.ofDir]; done) | (simp_all <;> grind [Shift.date, Shift.rng, Shift.commodity, Shift.amount, Shift.cost, Shift.assertion, Shift.posting, Shift.tx, Shift.account, Shift.incl, Shift.dir, Shift.comment, Shift.item, Shift.dirResult, toRange, emptyCommodity, DirResult.ofDir])))
